@@ -58,8 +58,13 @@ def decode_html(text):
     raise ValueError('no data script element found (%d script elements)' % len(p.scripts))
 
 
+# the end tag of a script element is recognised case-insensitively and with blanks before '>' (statements are often upper case)
+END_TAGS = ['</script>', '</SCRIPT>', '</ScRiPt>', '</script >', '</SCRIPT\t>']
+
+
 def build_txns(data_atoms, names, rnd, variant):
-    desc = ' '.join(ATOM_TEXT[a] for a in data_atoms) or 'PLAIN'
+    end = END_TAGS[variant % len(END_TAGS)]
+    desc = ' '.join(end if a == 'endscript' else ATOM_TEXT[a] for a in data_atoms) or 'PLAIN'
     n1 = ''.join(NAME_TEXT[a] for a in names[0])
     n2 = ''.join(NAME_TEXT[a] for a in names[1])
     d = datetime.datetime
